@@ -1,5 +1,6 @@
 from fontTools.config import OPTIONS
 from fontTools.misc.textTools import Tag, bytesjoin
+from fontTools.misc.lazyTools import LazyList
 from .DefaultTable import DefaultTable
 from enum import IntEnum
 import sys
@@ -906,6 +907,10 @@ class BaseTable(object):
             del self.font
             self.decompile(reader, font)
         if recurse:
+            for name, value in list(self.__dict__.items()):
+                if isinstance(value, LazyList):
+                    # decode the items of lazily read record arrays now
+                    setattr(self, name, value[:])
             for subtable in self.iterSubTables():
                 subtable.value.ensureDecompiled(recurse)
 
